@@ -232,3 +232,9 @@ func JSON(v any) string {
 	b, _ := json.Marshal(v)
 	return string(b)
 }
+
+// ScratchCtx returns a context whose observations are discarded (baseline recording runs).
+func ScratchCtx(prop, tier string, seed int64) *Ctx {
+	return &Ctx{Property: prop, Tier: tier, Seed: seed, Engine: "scratch", Rand: rand.New(rand.NewSource(CaseSeed(seed, prop, "scratch", 0))),
+		res: NewResult(), distinct: map[string]map[uint64]struct{}{}, violSigs: map[string]int{}}
+}
